@@ -19,6 +19,11 @@ DERIVS2 = ['reordered_grown', 'grown_reordered', 'shrunk', 'deleted_grown', 'mer
 # derivations through functions that build the returned table column by column and have to hand every column over
 # to it (fewer sources each; the compared column is drawn from ALL columns of the derived table, see generate)
 DERIVS3 = ['hshuffled_subset', 'hshuffled_all', 'kept_only', 'setcol', 'mapped', 'concat_forms', 'weighted']
+# derivations in which the table starts EMPTY, receives its columns (as column objects of another empty / non-empty table,
+# by type, or by later assignment) and only then gets its length and cells (the compared column: ANY column, see generate)
+DERIVS4 = ['from_empty']
+# the statistics of a column: numbers (CallableFloat: a float that can also be called) used as reference scalars
+STATS = ['max', 'min', 'mean', 'median', 'std', 'sum']
 OPS = {'CEq': operator.eq, 'CNe': operator.ne, 'CLt': operator.lt, 'CLe': operator.le, 'CGt': operator.gt,
        'CGe': operator.ge}
 OPNAMES = ['CEq', 'CNe', 'CLt', 'CLe', 'CGt', 'CGe']
@@ -36,6 +41,12 @@ SCALARS = {
                'a', '1', '2.5', '', None, True, 2 ** 53 + 1, 2 ** 62],
     'KInt': [0, 1, 2, -1, 7, 3, 100, 2 ** 53, 2 ** 53 + 1, -2 ** 63, 2 ** 63 - 1, 0.0, -0.0, 1.0, 7.0, NAN, INF, -INF,
              2.5, -0.5, 'a', '1', '2.5', '', None, True],
+}
+# a tame alphabet for the statistics references (small numbers: the statistics are often cells, or lie between cells)
+TAME = {
+    'KMixed': [0, 1, 2, 3, 5, 7, 7, -1, 2.5, 'a', None, NAN],
+    'KFloat': [0.0, 1.0, 2.0, 3.0, 7.0, 7.0, 2.5, -0.5, NAN],
+    'KInt': [0, 1, 2, 3, 5, 7, 7, -1, -3, 100],
 }
 # integers beyond the binary64 range (legitimate MixedColumn cells; float(x) / math.isnan(x) raise OverflowError on them)
 HUGE = 2 ** 1024
@@ -152,6 +163,8 @@ def enc_ref(r):
     t = r[0]
     if t == 'col':
         return dict(r[1].spec)
+    if t == 'stat':
+        return dict(r[1].spec, value=pyobs.enc(r[1].plain), cls=type(r[1].obj).__name__)
     if t == 'scalar':
         return {'t': t, 'v': pyobs.enc(r[1])}
     if t in ('seq', 'tuple', 'set'):
@@ -179,10 +192,29 @@ class ColRef(object):
         self.before = dump(owner)
 
 
+class StatUnavailable(Exception):
+    """computing the statistic (not the operation under test) raised, or did not give a number: the case is dropped"""
+
+
+class StatRef(object):
+    """a reference that is the value of a column statistic (`dm.c.max`, `.min`, `.mean`, `.median`, `.std`, `.sum`): `obj`
+    is the object the property returned -- a CallableFloat (a float that is also callable and returns itself), for a
+    MixedColumn sometimes a plain number -- and `plain` the same number as a plain Python float / int.  It is a NUMBER:
+    the comparison is judged exactly as the comparison with `plain`."""
+    def __init__(self, obj, spec):
+        self.obj, self.spec = obj, spec
+        o = plainval(obj)
+        if isinstance(o, bool) or not isinstance(o, (int, float)):
+            raise TypeError('statistic %r is not a number' % (obj,))
+        self.plain = float(o) if isinstance(o, float) else int(o)
+
+
 def ref_object(r):
     t, v = r
     if t == 'col':
         return v.col
+    if t == 'stat':
+        return v.obj
     if t == 'scalar':
         return v
     if t == 'seq':
@@ -203,6 +235,9 @@ def ref_lit(r):
     if t == 'col':
         # `column OP other_column` is judged as `column OP [the cells of other_column]` (a same-length sequence)
         return '(OSeq %s)' % L.lst(pyv_lit(x) for x in v.cells)
+    if t == 'stat':
+        # `column OP column.max` is judged as `column OP <that number as a plain float>`
+        return '(OScalar %s)' % pyv_lit(v.plain)
     if t == 'scalar':
         return '(OScalar %s)' % pyv_lit(v)
     if t in ('seq', 'tuple'):
@@ -226,7 +261,7 @@ class C02:
     oracle_imports = ['From DM Require Import Run.SC02.']
     model_imports = ['From DM Require Import Run.SC02 Run.RC02.']
     exhaustive = False
-    rule = ('3 column types x 24 derivations of the source x cell vectors of length 0..6 (thorough: ..10) drawn from a '
+    rule = ('3 column types x 25 derivations of the source x cell vectors of length 0..6 (thorough: ..10) drawn from a '
             '12-15 value alphabet per type (ints incl. 2^53+1 / int64 bounds, floats incl. nan, +-inf, -0.0, text, None) x '
             'references {int, float incl. nan/+-inf/-0.0, text, numeric text, None, bool, same-length list/tuple (incl. the '
             'column\'s own cells, wrong length), set (0-4 members incl. nan, also with the NaN members being the very float '
@@ -261,6 +296,21 @@ class C02:
             'from the source) or of an unrelated table of the same length; judged as the comparison with the list of '
             'that column\'s cells, row by row (L0 oracle and L1 model); the reference column and its table must be '
             'unchanged afterwards. '
+            'A family of references that are the STATISTICS of a column (col.max, .min, .mean, .median, .std, .sum: a '
+            'CallableFloat, i.e. a float that can also be called and then returns itself; for a MixedColumn sometimes a '
+            'plain number or NaN): of the compared column itself (dm.x == dm.x.max), of another column of the source, of '
+            'a column of an unrelated table (every column type); all six operators, every column type, every statistic '
+            'also against the whole alphabet; the cells half of the time from a tame alphabet (statistics that are cells '
+            'or lie between cells); judged exactly as the comparison with that number as a plain float (L0 oracle and '
+            'L1 model). '
+            'One more derivation builds the table EMPTY (DataMatrix(), length=0, a table cut back to length 0, dm[:0], '
+            'an empty selection by value / by set), hands it its columns as column objects of ANOTHER empty table (the '
+            'template, made in the same ways with typed columns; dm.c = template.c or setattr), by type, or by later '
+            'assignment (by type, straight from a list, as column objects of a non-empty table of the same length that '
+            'already holds the cells), and only then gives it its length (dm.length = k, sometimes k+1 then k) and its '
+            'cells (whole column, [:], [0:k], cell by cell), possibly growing it a second time; the template then stays '
+            'empty or is grown to the same / another length and filled with other cells; the compared column is again '
+            'drawn from ALL columns. '
             'Every row carries a unique payload p (MixedColumn) and side by side e = p/2 (FloatColumn) and i = 3p+1 '
             '(IntColumn); the L0 oracle compares the row ids and EVERY column of the result with the positional '
             'selection from the dumped source, and independently (Python side) every result row must be, cell for cell over '
@@ -291,6 +341,8 @@ class C02:
         'a column object as reference is modelled as the list of its cells (plain Python numbers): MixedColumn and '
         'IntColumn iterate it and type-check every cell as they do for a list; a FloatColumn takes the array of a numeric '
         'reference column as it is (NumericColumn._tosequence) -- the same element-wise comparison, not modelled separately',
+        'a statistic of a column used as reference (CallableFloat) is modelled as the plain float of the same value; when '
+        'computing the statistic itself raises (not the operation under test) the case is dropped',
         'predicates must not depend on the Python class of a number (NumericColumn hands numpy scalars to them)',
         'set members beyond 2^53 are not generated for a FloatColumn (numpy.float64 == int rounds the int; the L1 model '
         'compares set members exactly)',
@@ -739,6 +791,106 @@ class C02:
                 return afterwards(src[:])
             src.w = [rnd.choice([0, 1, 1, 2]) for _ in range(len(src))]
             return afterwards(ops.weight(src.w))
+        if deriv == 'from_empty':
+            # The table starts EMPTY (made in one of six ways), receives its columns -- as column objects of ANOTHER
+            # empty table (the template), by type, or by later assignment (by type, from a list, as column objects of a
+            # non-empty table of the same length) -- and only then gets its length and its cells (whole column, slice,
+            # cell by cell; possibly in two steps).  The template then goes its own way (stays empty, or is grown and
+            # filled with other cells).  A column that stayed attached to the table it was copied from sits in the new
+            # table and reads correctly, but a comparison on it selects from the other table.
+            tnames = {'p': MixedColumn, 'c': ct, 'e': FloatColumn, 'i': IntColumn, 't': MixedColumn}
+            names = ['p', 'c', 'e', 'i'] + (['t'] if rnd.random() < 0.3 else [])
+            colset = ''.join(names).replace('c', '')
+
+            def empty(mode, typed):
+                if mode >= 3:
+                    src = table(fillers(rnd.randint(1, 3)), 500, cols=colset)
+                    if mode == 3:
+                        return src[:0]
+                    if mode == 4:
+                        return src.p == 'no such row'
+                    return src.p == set()
+                if mode == 0:
+                    dm = DataMatrix()
+                elif mode == 1:
+                    dm = DataMatrix(length=0)
+                else:
+                    dm = DataMatrix(length=rnd.randint(1, 3))
+                    if typed and rnd.random() < 0.5:
+                        for nm in names:
+                            dm[nm] = tnames[nm]
+                        typed = False
+                    dm.length = 0
+                if typed:
+                    for nm in names:
+                        dm[nm] = tnames[nm]
+                return dm
+
+            def values(nm, cs, start):
+                ps = [start + j for j in range(len(cs))]
+                return {'p': ps, 'c': list(cs), 'e': [0.5 * x for x in ps], 'i': [3 * x + 1 for x in ps],
+                        't': ['t%d' % x for x in ps]}[nm]
+
+            def fill(dm, nm, vals):
+                how = rnd.randint(0, 3)
+                if how == 0:
+                    dm[nm] = vals
+                elif how == 1:
+                    dm[nm][:] = vals
+                elif how == 2:
+                    dm[nm][0:len(vals)] = vals
+                else:
+                    for j, v in enumerate(vals):
+                        dm[nm][j] = v
+
+            template = empty(rnd.choice([0, 0, 1, 1, 2, 3, 4, 5]), True)
+            dm = empty(rnd.choice([0, 0, 0, 1, 1, 2, 3, 4, 5]), False)
+            order = list(names)
+            rnd.shuffle(order)
+            for nm in order:
+                how = rnd.choice(['object', 'object', 'object', 'type', 'late'])
+                if how == 'object':
+                    if rnd.random() < 0.5:
+                        dm[nm] = template[nm]
+                    else:
+                        setattr(dm, nm, getattr(template, nm))
+                elif how == 'type':
+                    dm[nm] = tnames[nm]
+            k = rnd.choice([n, n, rnd.randint(0, n)])
+            if k:
+                if rnd.random() < 0.2:
+                    dm.length = k + 1
+                dm.length = k
+            donor = None
+            for nm in order:
+                vals = values(nm, cells[:k], 100)
+                if nm not in dm:
+                    how = rnd.randint(0, 2)
+                    if how == 0 and k and tnames[nm] is MixedColumn:
+                        dm[nm] = vals                       # a new column straight from a list
+                        continue
+                    if how == 1:
+                        # the column object of a table of the same length that already holds these cells
+                        donor = donor or table(cells[:k], 100, cols=colset)
+                        dm[nm] = donor[nm]
+                        if rnd.random() < 0.7:
+                            continue
+                    else:
+                        dm[nm] = tnames[nm]
+                if k:
+                    fill(dm, nm, vals)
+            way = rnd.randint(0, 2)
+            if way:
+                # the template goes its own way: other cells, the same or another length
+                m = (max(n, 1) + rnd.randint(0, 1)) if way == 1 else rnd.randint(1, 2)
+                template.length = m
+                other = (list(cells)[::-1] + fillers(m))[:m]
+                for nm in names:
+                    fill(template, nm, values(nm, other, 900))
+            if donor is not None and rnd.random() < 0.5:
+                donor.length = len(donor) + 1
+            dm = grow(dm, cells[k:], 300)
+            return afterwards(dm, 0.15, 0.15)
         raise AssertionError(deriv)
 
     # ---- one case ------------------------------------------------------------------------
@@ -756,6 +908,8 @@ class C02:
                     return None
                 ref = self.make_ref(inp['ref'], dm, colname)
                 before = dump(dm)
+            except StatUnavailable:
+                return None
             except Exception as e:      # noqa: BLE001
                 # deriving the source is not the operation under test, but a crash is not a verdict either: on the
                 # unchanged tree every recipe of build() runs through for every cell vector
@@ -850,13 +1004,18 @@ class C02:
             'aux': '(some_in_dom %s %s %s %s)' % (src_lit[1], L.string(colname), rlit, xs),
             'nontrivial': any(0 < s < n for s in sizes),
             'sig': '%s|%s|%s|%s%s%s%s' % (kind, deriv, src_lit[1],
-                                          rlit + ('|colref:%s/%s' % (inp['ref']['where'], ref[1].kind) if ref[0] == 'col' else ''),
+                                          rlit + ('|colref:%s/%s' % (inp['ref']['where'], ref[1].kind) if ref[0] == 'col' else '')
+                                          + ('|stat:%s' % type(ref[1].obj).__name__ if ref[0] == 'stat' else ''),
                                           '|shared' if inp['ref'].get('shared') else '',
                                           '|' + ','.join(inp['between']) if inp.get('between') else '',
                                           '|col=' + colname if colname != 'c' else ''),
             'tags': [kind, deriv, 'ref:' + self.ref_tag(ref), 'len%d' % n] + (['shared-nan'] if inp['ref'].get('shared') else [])
             + (['col:%s/%s' % (colname if colname in 'peit' else 'other', ckind)] if colname != 'c' else [])
             + (['colref:%s' % inp['ref']['where'], 'colref:%s-vs-%s' % (ckind, ref[1].kind)] if ref[0] == 'col' else [])
+            + (['stat:%s' % inp['ref']['stat'], 'stat-of:%s' % inp['ref']['of'], 'stat-class:%s' % type(ref[1].obj).__name__,
+                'stat-value:%s' % ('nan' if ref[1].plain != ref[1].plain else 'inf' if ref[1].plain in (INF, -INF) else
+                                   'integral' if ref[1].plain == int(ref[1].plain) else 'fraction')]
+               if ref[0] == 'stat' else [])
             + (['huge-int-cell'] if any(type(x) is int and abs(x) >= HUGE for nm, _k, c in before[1] if nm == colname
                                         for x in c) else []),
         }
@@ -865,6 +1024,8 @@ class C02:
         t, v = ref
         if t == 'col':
             return 'column-object'
+        if t == 'stat':
+            return 'statistic'
         if t == 'scalar':
             if type(v) is float:
                 return 'nan' if v != v else ('inf' if math.isinf(v) else 'float')
@@ -920,6 +1081,8 @@ class C02:
         col = dm._cols[colname]
         if r['t'] == 'col':
             return ('col', self.col_ref(r, dm, colname))
+        if r['t'] == 'stat':
+            return ('stat', self.stat_ref(r, dm, colname))
         if r['t'] in ('own', 'ownscalar', 'ownset'):
             cells = [plainval(v) for v in col]
             rnd = _random.Random(r['v'])
@@ -937,6 +1100,30 @@ class C02:
             if own and any(type(x) is float and x != x for x in ref[1]):
                 ref = ('set', [x for x in ref[1] if not (type(x) is float and x != x)] + own)
         return ref
+
+    def stat_ref(self, r, dm, colname):
+        """the reference is the statistic r['stat'] (max, min, mean, median, std, sum) of
+        'self'    the compared column itself (dm.x == dm.x.max);
+        'column'  another column of the source (falls back to the compared column when there is none);
+        'ext'     a column of kind r['kind'] of an unrelated table.
+        The properties return a CallableFloat: an ordinary float that can also be called (and then returns itself)."""
+        from datamatrix import DataMatrix
+        rnd = _random.Random(r['seed'])
+        of = r['of']
+        if of == 'ext':
+            k2 = r['kind']
+            m = rnd.randint(1, 5)
+            other = DataMatrix(length=m)
+            other.o = coltype(k2)
+            other.o = [rnd.choice(CELLS[k2]) for _ in range(m)]
+            col = other.o
+        else:
+            names = [nm for nm, c in dm._cols.items() if kind_of(c) in KINDS and nm != colname]
+            col = dm[rnd.choice(names)] if (of == 'column' and names) else dm[colname]
+        try:
+            return StatRef(getattr(col, r['stat']), r)
+        except Exception as e:      # noqa: BLE001
+            raise StatUnavailable('%s: %s' % (type(e).__name__, e))
 
     def col_ref(self, r, dm, colname):
         """the reference is a live column object of kind r['kind']:
@@ -1085,7 +1272,7 @@ class C02:
                             add(inp_)
         # references that are LIVE COLUMN OBJECTS (dm.a == dm.b): every column type on both sides, the reference column
         # taken from the source itself, from a relative or from an unrelated table of the same length
-        allderivs = DERIVS + DERIVS2 + DERIVS3
+        allderivs = DERIVS + DERIVS2 + DERIVS3 + DERIVS4
         for kind in KINDS:
             for k2 in KINDS:
                 for where in ('same', 'samenew', 'relative', 'other'):
@@ -1096,6 +1283,28 @@ class C02:
                                 'cells': cells, 'seed': rng.randint(0, 10 ** 6), 'ops': OPNAMES,
                                 'ref': {'t': 'col', 'where': where, 'kind': k2, 'seed': rng.randint(0, 10 ** 6)}}
                         if rng.random() < 0.15:
+                            inp_['between'] = rng.sample(['shuffle_col', 'shuffle_p', 'shuffle_dm', 'sample', 'sort',
+                                                          'shuffle_res'], rng.randint(1, 2))
+                        add(inp_)
+        # references that are the STATISTICS of a column (CallableFloat: a float that is also callable): of the compared
+        # column itself, of another column of the source, of a column of an unrelated table; all six operators; the
+        # cells half of the time from a tame alphabet (statistics that are cells, proper non-empty selections)
+        for kind in KINDS:
+            whole = [pyobs.enc(c) for c in CELLS[kind]]
+            for stat in STATS:
+                add({'kind': kind, 'deriv': 'natural', 'cells': whole, 'seed': 1, 'ops': OPNAMES,
+                     'ref': {'t': 'stat', 'stat': stat, 'of': 'self', 'seed': 0}})
+                for of in ('self', 'column', 'ext'):
+                    for rep in range(2 if tier == 'quick' else 6):
+                        n = rng.randint(2, maxlen) if (rep or rng.random() < 0.8) else rng.randint(0, 1)
+                        pool = TAME[kind] if rng.random() < 0.5 else CELLS[kind]
+                        cells = [pyobs.enc(rng.choice(pool)) for _ in range(n)]
+                        inp_ = {'kind': kind, 'deriv': 'natural' if rep == 0 else rng.choice(allderivs),
+                                'cells': cells, 'seed': rng.randint(0, 10 ** 6), 'ops': OPNAMES,
+                                'ref': {'t': 'stat', 'stat': stat, 'of': of, 'seed': rng.randint(0, 10 ** 6)}}
+                        if of == 'ext':
+                            inp_['ref']['kind'] = rng.choice(KINDS)
+                        if rng.random() < 0.1:
                             inp_['between'] = rng.sample(['shuffle_col', 'shuffle_p', 'shuffle_dm', 'sample', 'sort',
                                                           'shuffle_res'], rng.randint(1, 2))
                         add(inp_)
@@ -1119,9 +1328,11 @@ class C02:
                 add(dict(base, ref={'t': 'type', 'v': t}))
         # tables assembled column by column (DERIVS3): the comparison is made on any column of the derived table
         for kind in KINDS:
-            for deriv in DERIVS3:
+            for deriv in DERIVS3 + DERIVS4:
                 for n in range(0, maxlen + 1):
-                    for _ in range(1 if (tier == 'quick' or n < 2) else 4):
+                    # (the from-empty derivation has many variants: how either table is made, how every column arrives,
+                    # how the cells are written, what becomes of the template)
+                    for _ in range((1 if (tier == 'quick' or n < 2) else 4) * (4 if deriv in DERIVS4 else 1)):
                         cells = [pyobs.enc(rng.choice(CELLS[kind])) for _ in range(n)]
                         seed = rng.randint(0, 10 ** 6)
                         m, cols = self.source_info(kind, deriv, cells, seed, n)
